@@ -178,6 +178,51 @@ def _validate_role(ctx):
     return validation_role(ctx)
 
 
+def _state_adts(ctx):
+    """The cache state structs: crate-local structs that hold max_capacity, time_to_live and time_to_idle (not the builders / Policy)."""
+    out = []
+    for an, a in ctx.prog.adts.items():
+        if a['kind'] != 'Struct' or 'builder' in an or an.endswith('Policy'):
+            continue
+        names = {f['name'] for f in a['variants'][0]['fields']}
+        if {'max_capacity', 'time_to_live', 'time_to_idle'} <= names:
+            out.append(an)
+    return sorted(out)
+
+
+def _state_ctors(ctx):
+    prog = ctx.prog
+    adts = set(_state_adts(ctx))
+    return {nid for nid, b in prog.bodies.items() if b.kind != 'closure' and any(
+        s_['st'] == 'assign' and s_['rv']['rv'] == 'aggr' and s_['rv'].get('kind') == 'adt' and norm(s_['rv'].get('adt') or '') in adts for _, _, s_ in b.stmts())}
+
+
+def _built_states(ctx, entry):
+    """End to end: [(path, adt, {field: value term})] for the cache state a public entry point hands out, with the whole constructor chain
+    (plain constructor, record, or `with_x(..)` steps on a `mut self`) stepped into."""
+    key = ('built-states', entry)
+    if key in ctx.cache:
+        return ctx.cache[key]
+    from .symex import PathLimit as _PL
+    adts = _state_adts(ctx)
+    out = []
+    try:
+        ps = [p for p in ctx.symex(inline_depth=8, loop_visits=2).run(entry) if not p.diverged]
+    except _PL:
+        ps = []
+    for p in ps:
+        if p.ret is None:
+            continue
+        for x in subterms(p.ret):
+            if isinstance(x, tuple) and x and x[0] == 'aggr' and norm(str(x[1])) in adts:
+                names = [f['name'] for f in ctx.prog.adts[norm(str(x[1]))]['variants'][0]['fields']]
+                if len(names) == len(x[3]):
+                    out.append((p, norm(str(x[1])), dict(zip(names, x[3]))))
+                break
+    ctx.cache[key] = out
+    return out
+
+
 def rule_build_validate(ctx):
     r = RuleResult('MUST-build-validate', 'every function that hands the builder\'s durations to a cache constructor has, on every path that reaches the constructor, established for '
                    'time_to_live and for time_to_idle: it is None, or `d <= Duration::from_secs(1000 * 365 * 24 * 3600)` holds for the Duration itself (inclusive limit); the '
@@ -185,7 +230,8 @@ def rule_build_validate(ctx):
     from .symex import PathLimit
     prog = ctx.prog
     builds = [n for n in prog.bodies if n.startswith(('sync::builder::CacheBuilder::build', 'unsync::builder::CacheBuilder::build')) and prog.bodies[n].kind != 'closure']
-    ctor = {n for n in prog.bodies if n.endswith('Cache::with_everything')}
+    # the constructor(s) the builders hand the durations to: by name today, else whatever builds the cache state
+    ctor = {n for n in prog.bodies if n.endswith('Cache::with_everything')} | _state_ctors(ctx)
     direct = sorted(n for n in prog.bodies if (prog.callees(n) & ctor) and n.startswith(('sync::builder::', 'unsync::builder::')) and prog.bodies[n].kind != 'closure')
     if not direct or not ctor:
         raise CheckFailure('MUST-build-validate: no builder function constructing a cache found')
@@ -326,6 +372,17 @@ def rule_default_consts(ctx):
     for nid in ('unsync::cache::Cache::new', 'sync::cache::Cache::new'):
         if nid not in prog.bodies:
             continue
+        # end to end: the state new(n) hands out is bounded by n and has nothing else configured, whatever the constructor chain looks like
+        built = _built_states(ctx, nid)
+        if built:
+            for p, an, vals in built:
+                n += 1
+                ok = vals.get('max_capacity') == ('aggr', OPTION, 'Some', (('param', 1),)) and all(vals.get(k_) == NONE for k_ in ('time_to_live', 'time_to_idle', 'weigher')) and \
+                    ('build_hasher' not in vals or has_call(vals['build_hasher'], ('default',)))
+                r.instance(function=nid, built_state={k_: fmt(vals.get(k_))[:30] for k_ in ('max_capacity', 'time_to_live', 'time_to_idle', 'weigher')}, ok=ok)
+                if not ok:
+                    r.violate(nid, 'new-args', 'with_everything', '%s does not pass (Some(max_capacity), None, default hasher, None, None, None)' % nid, where=ctx.where(nid))
+            continue
         # (small helper constructors of an argument record are stepped into; the values are matched by parameter / field NAME)
         sx = ctx.symex(inline_depth=2, inline_pred=lambda a, b, c: False if a.endswith('with_everything') else (None if len(b.blocks) <= 12 else False))
         for p in sx.run(nid):
@@ -370,7 +427,8 @@ def rule_default_consts(ctx):
 
 ALLOWED_INITCAP_CALLS = ('std::option::Option::map', 'std::option::Option::unwrap_or_default', 'std::option::Option::unwrap_or',
                          'saturating_add', 'with_capacity_and_hasher', 'std::option::Option::unwrap_or_else', 'checked_add', 'wrapping_add',
-                         'std::option::Option::map_or', 'std::option::Option::map_or_else', 'std::option::Option::and_then', 'std::cmp::Ord::min', 'std::cmp::min')
+                         'std::option::Option::map_or', 'std::option::Option::map_or_else', 'std::option::Option::and_then', 'std::cmp::Ord::min', 'std::cmp::min',
+                         '<std::option::Option as std::ops::Try>::branch', '<std::option::Option as std::ops::FromResidual>::from_residual')
 
 
 def _initcap_taint(ctx, b, seeds):
@@ -420,6 +478,10 @@ def _initcap_taint(ctx, b, seeds):
                     targets, ext, passed = prog.call_targets(b, t)
                     if ext and any(str(ext).endswith(x) for x in ALLOWED_INITCAP_CALLS):
                         t_ = any(op_t(a) for a in t['args'])
+                    elif targets and any(op_t(a) for a in t['args']) and all(
+                            prog.bodies[tg].kind != 'closure' and prog.bodies[tg].locals[0]['ty']['s'] in ('usize', 'std::option::Option<usize>') for tg in targets):
+                        # a small in-crate helper that computes a capacity from it (its body is judged through the seeded parameter)
+                        t_ = True
                 if t_:
                     taint.add(l); changed = True
                     break
@@ -436,7 +498,8 @@ def _is_value_match(ctx, b, bi, t):
     if not (len(ds) == 1 and ds[0][0] == 'assign' and ds[0][3]['rv']['rv'] == 'discr'):
         return False
     src = ds[0][3]['rv']['pl']
-    if not b.local_ty(src['l'])['s'].startswith('std::option::Option<') and not any(isinstance(e, dict) for e in src.get('p', [])):
+    # (`opt?` tests the ControlFlow that Try::branch made of the Option: the same Some / None selection)
+    if not b.local_ty(src['l'])['s'].startswith(('std::option::Option<', 'std::ops::ControlFlow<std::option::Option<')) and not any(isinstance(e, dict) for e in src.get('p', [])):
         return False
     pdom, _nodes = b.postdominators()
     succ, _pred, _seen = b.cfg()
@@ -482,7 +545,8 @@ def rule_initcap_sink(ctx):
     closure_seeds = {}
     sinks = set()
     work = sorted(prog.bodies)
-    for rnd in range(2):
+    LAST = 3
+    for rnd in range(LAST + 1):
         for nid in work:
             b = prog.bodies[nid]
             seeds = {i for i in range(1, b.argc + 1) if ALIASES.get(b.local_name(i), b.local_name(i)) == 'initial_capacity'}
@@ -495,12 +559,12 @@ def rule_initcap_sink(ctx):
                 if t['t'] == 'switch' and op_t(t['discr']) and _is_value_match(ctx, b, bi, t):
                     # `match initial_capacity { Some(c) => f(c), None => k }`: the same value selection as map(..).unwrap_or(..) -- the arms only
                     # compute the capacity and re-join; nothing else depends on the test
-                    if rnd == 1:
+                    if rnd == LAST:
                         n += 1
                         r.instance(function=nid, kind='option-match computing the capacity', line=t.get('line'), ok=True)
                     continue
                 if t['t'] == 'switch' and op_t(t['discr']):
-                    if rnd == 1:
+                    if rnd == LAST:
                         n += 1
                         r.instance(function=nid, kind='branch', line=t.get('line'))
                         r.violate(nid, 'branch-on-initial-capacity', 'switch', 'control flow in %s depends on initial_capacity: it would have an observable effect' % nid,
@@ -514,16 +578,27 @@ def rule_initcap_sink(ctx):
                 if ext and str(ext).endswith(('Option::map', 'Option::and_then', 'Option::unwrap_or_else', 'Option::map_or', 'Option::map_or_else')):
                     for c in passed:
                         closure_seeds.setdefault(c, set()).add(2)
-                if rnd == 0:
+                # an in-crate helper that receives the value under another parameter name (a nested `fn headroom(cap)`, a generic
+                # `set(self, step)` taking the closure that captured it) is followed: its parameter is tainted and its own body is judged
+                for i in tainted_args:
+                    for tg in targets:
+                        tb_ = prog.bodies[tg]
+                        if tb_.kind != 'closure' and i + 1 <= tb_.argc and ALIASES.get(tb_.local_name(i + 1), tb_.local_name(i + 1)) not in ('initial_capacity', 'self'):
+                            closure_seeds.setdefault(tg, set()).add(i + 1)
+                if rnd < LAST:
                     continue
                 for i in tainted_args:
                     n += 1
                     if targets:
                         okc = all(prog.bodies[tg].kind != 'closure' and i + 1 <= prog.bodies[tg].argc and
-                                  ALIASES.get(prog.bodies[tg].local_name(i + 1), prog.bodies[tg].local_name(i + 1)) in ('initial_capacity', 'self') for tg in targets)
+                                  (ALIASES.get(prog.bodies[tg].local_name(i + 1), prog.bodies[tg].local_name(i + 1)) in ('initial_capacity', 'self') or
+                                   (i + 1) in closure_seeds.get(tg, ())) for tg in targets)
                         callee = targets[0]
                     else:
                         okc = any(str(ext).endswith(x) for x in ALLOWED_INITCAP_CALLS)
+                        # invoking the closure that captured the value (the closure body is judged where it is written)
+                        if not okc and i == 0 and str(ext) in ('std::ops::FnOnce::call_once', 'std::ops::FnMut::call_mut', 'std::ops::Fn::call'):
+                            okc = True
                         callee = ext
                         if str(ext).endswith('with_capacity_and_hasher'):
                             sinks.add(nid.split('::')[0])
@@ -537,6 +612,24 @@ def rule_initcap_sink(ctx):
         raise CheckFailure('FLOW-initcap-sink: the value tracked as initial_capacity does not reach the map constructor of %s -- the rule would pass vacuously (anchor moved?)' % sorted(want_sinks - sinks))
     r.require_floor(3, 'uses of initial_capacity')
     return r
+
+
+def _built_verbatim(ctx, kind, field):
+    """On every path of every public build* of that cache kind the state handed out holds the builder's own knob of that name."""
+    prog = ctx.prog
+    ents = [n for n in prog.bodies if n.startswith(kind + '::builder::CacheBuilder::build') and prog.bodies[n].kind != 'closure']
+    seen = 0
+    for ent in ents:
+        for p, an, vals in _built_states(ctx, ent):
+            if not an.startswith(kind + '::'):
+                continue
+            seen += 1
+            x, chain = vals.get(field), []
+            while isinstance(x, tuple) and x and x[0] == 'fld':
+                chain.append(x[2]); x = x[1]
+            if not (x == ('param', 1) and chain and ALIASES.get(chain[0], chain[0]) == field):
+                return False
+    return seen > 0
 
 
 def rule_store_config(ctx, WANT=('max_capacity', 'time_to_live', 'time_to_idle'), label='MUST-store-config'):
@@ -581,6 +674,12 @@ def rule_store_config(ctx, WANT=('max_capacity', 'time_to_live', 'time_to_idle')
                         named_ = [c for c in chain if isinstance(c, str) and not c.isdigit()] + ([pname.get(x[1])] if is_proj and not chain else [])
                         ok = is_proj and all(ALIASES.get(c, c) == f or c not in WANT for c in named_) and (not named_ or not chain or named_[0] == f or named_[0] not in WANT)
                         n += 1
+                        if not ok and v in (NONE, ('c', 0)) and not any(pname.get(i_) == f for i_ in pname) and _built_verbatim(ctx, kind, f):
+                            # the constructor only creates the slot (no parameter of that name); a later `with_x(..)` step of the chain fills it:
+                            # judged end to end on what build() hands out
+                            ok = True
+                            r.instance(constructor=nid, field=f, stored='set by a later step of the constructor chain', end_to_end=True, ok=True)
+                            continue
                         r.instance(constructor=nid, field=f, stored=fmt(v)[:60], ok=ok)
                         if not ok:
                             r.violate(nid, 'config-not-stored-verbatim', f, '%s stores `%s` into %s.%s on a path (conditions: %s): the cache no longer holds / reports exactly the '
